@@ -399,48 +399,34 @@ func (in *interp) ensureModel() {
 		p.model = m
 		return
 	}
-	// group conjuncts by component
-	groups := map[int32][]int{}
-	var order []int32
-	for i := range p.pc {
-		ca := p.pcAtoms[i]
-		if len(ca) == 0 {
-			continue
-		}
-		r := p.find(ca[0].id)
-		if _, ok := groups[r]; !ok {
-			order = append(order, r)
-		}
-		groups[r] = append(groups[r], i)
-	}
+	// one query over the whole path condition (get-value is expensive in z3,
+	// so the model is fetched once per path rather than per component)
 	s := in.solver
-	for _, r := range order {
-		s.Push()
-		var as []*Term
-		seen := map[int32]bool{}
-		for _, i := range groups[r] {
-			s.Assert(p.pc[i])
-			for _, a := range p.pcAtoms[i] {
-				if !seen[a.id] {
-					seen[a.id] = true
-					as = append(as, a)
-				}
+	s.Push()
+	var as []*Term
+	seen := map[int32]bool{}
+	for i, c := range p.pc {
+		s.Assert(c)
+		for _, a := range p.pcAtoms[i] {
+			if !seen[a.id] {
+				seen[a.id] = true
+				as = append(as, a)
 			}
 		}
-		res := s.Check()
-		ok := true
-		if res == Sat {
-			ok = s.GetValues(as, m)
-		}
-		s.Pop()
-		switch {
-		case res == Unsat:
-			panic(in.abort(abortInfeasible, "path condition is infeasible"))
-		case res == Unknown:
-			panic(in.abort(abortInconclusive, "solver unknown on path condition"))
-		case !ok:
-			panic(in.abort(abortInconclusive, "model extraction failed"))
-		}
+	}
+	res := s.Check()
+	ok := true
+	if res == Sat {
+		ok = s.GetValues(as, m)
+	}
+	s.Pop()
+	switch {
+	case res == Unsat:
+		panic(in.abort(abortInfeasible, "path condition is infeasible"))
+	case res == Unknown:
+		panic(in.abort(abortInconclusive, "solver unknown on path condition"))
+	case !ok:
+		panic(in.abort(abortInconclusive, "model extraction failed"))
 	}
 	p.model = m
 }
